@@ -2,6 +2,7 @@
 import re
 from .model import *
 from .facts import Site, op_place, Call, proj_field_name
+from .fields import fields
 
 EXPLANATION = ("The property is a conjunction over every handler of every frame type in every auth state; statically it splits into (a) the two handshake "
                "machines are small pure transition functions whose transition table is read off MIR: the authenticated state is constructible only behind a "
@@ -244,7 +245,7 @@ def r3(run, db):
             gt = gates[0]
             te = true_edge(f, gt)
             subj = [proj_field_name(e) for r in f.origins(gt.args[0]) for e in r.get("proj", []) + r.get("trail", []) if e.startswith("f:")]
-            run.check("auth" in subj, nm + "|gate-on-auth", "the gate reads the session's auth field", "gate applied to %s" % subj, gt.where())
+            run.check(fields(db).nss_auth in subj, nm + "|gate-on-auth", "the gate reads the session's auth field", "gate applied to %s" % subj, gt.where())
             n = 0
             bad = []
             for c in f.calls():
@@ -285,7 +286,7 @@ def r4(run, db):
     n = 0
     for f in db.crate_fns(RC):
         for site, s in f.stmts():
-            if s["k"] == "assign" and "auth" in [proj_field_name(e) for e in s["lhs"][1] if e.startswith("f:")] and "NodeSessionState" in f.local_ty(s["lhs"][0]):
+            if s["k"] == "assign" and fields(db).nss_auth in [proj_field_name(e) for e in s["lhs"][1] if e.startswith("f:")] and "NodeSessionState" in f.local_ty(s["lhs"][0]):
                 n += 1
                 rts = f.origins(s["rv"]["op"]) if s["rv"]["k"] == "use" else []
                 good = False
@@ -297,7 +298,7 @@ def r4(run, db):
                 run.check(good, "auth-write:%s@L%s" % (f.id.split("::")[-1], "x"), "auth field := machine transition result (or a literal non-Ok state) in %s" % f.id.split("::")[-2 if f.id.endswith("}") else -1], "the auth field is assigned something other than a machine transition in %s" % f.id, f.where(s.get("l")))
         for site, s in f.aggregates(adt="NodeSessionState"):
             vals = dict(zip(s["rv"]["fields"], s["rv"]["ops"]))
-            a = vals.get("auth")
+            a = vals.get(fields(db).nss_auth)
             if a:
                 n += 1
                 ok = False
@@ -326,7 +327,7 @@ def r5(run, db):
     run.check(len(ct) == 1 and len(sr) == 1 and len(wp) == 1, "allow|shape", "lookup: advertised.contains, where_is_pid, supports_remoting", "allow-list lookup shape changed", a.where())
     if ct and sr and wp:
         subj = [proj_field_name(e) for r in a.origins(ct[0].args[0]) for e in r.get("proj", []) + r.get("trail", []) if e.startswith("f:")]
-        run.check("advertised_local_pids" in subj and any(r["k"] == "arg" and r["local"] == 2 for r in a.origins(ct[0].args[1])), "allow|contains-pid", "the pid parameter is looked up in the advertised set", "contains() not applied to (advertised set, pid)", ct[0].where())
+        run.check(fields(db).nss_advertised in subj and any(r["k"] == "arg" and r["local"] == 2 for r in a.origins(ct[0].args[1])), "allow|contains-pid", "the pid parameter is looked up in the advertised set", "contains() not applied to (advertised set, pid)", ct[0].where())
         te1 = true_edge(a, ct[0])
         te2 = true_edge(a, sr[0])
         rem = any(r["k"] == "const" and "supports_remoting" in str(r["op"].get("val")) for r in a.origins(sr[0].args[1]))
@@ -357,7 +358,7 @@ def r5(run, db):
     # writers of the advertised set
     for f in db.crate_fns(RC):
         for c in f.calls():
-            if c.matches(r"HashSet::<T, S, A>::(insert|extend)$|Extend<T>>::extend$") and "advertised_local_pids" in [proj_field_name(e) for r in f.origins(c.args[0]) for e in r.get("proj", []) + r.get("trail", []) if e.startswith("f:")]:
+            if c.matches(r"HashSet::<T, S, A>::(insert|extend)$|Extend<T>>::extend$") and fields(db).nss_advertised in [proj_field_name(e) for r in f.origins(c.args[0]) for e in r.get("proj", []) + r.get("trail", []) if e.startswith("f:")]:
                 where = f.id
                 okw = bool(re.search(r"after_authenticated$|handle_supervisor_evt::\{closure#0\}$", where))
                 run.check(okw, "advertised-writer:%s" % where.split("::")[-2 if where.endswith("}") else -1], "the advertised set grows in %s (local source)" % where.split("::")[-2 if where.endswith("}") else -1],
@@ -391,11 +392,11 @@ def r6(run, db):
     ct = [c for c in f.calls() if c.matches(r"HashSet::<T, S, A>::contains$") and ge and f.edge_dominates(ge, c.site)]
     good = len(ins) == 1 and len(ct) == 1 and true_edge(f, ct[0]) and f.edge_dominates(true_edge(f, ct[0]), ins[0].site)
     subj = [proj_field_name(e) for r in (f.origins(ct[0].args[0]) if ct else []) for e in r.get("proj", []) + r.get("trail", []) if e.startswith("f:")]
-    run.check(good and "authenticated_sessions" in subj, "GetSessions|authenticated-only", "GetSessions lists a session only on the true edge of authenticated_sessions.contains(id)", "GetSessions lists sessions without the authenticated filter", f.where())
+    run.check(good and fields(db).nsv_authenticated in subj, "GetSessions|authenticated-only", "GetSessions lists a session only on the true edge of authenticated_sessions.contains(id)", "GetSessions lists sessions without the authenticated filter", f.where())
     writers = []
     for g in db.crate_fns(RC):
         for c in g.calls():
-            if c.matches(r"HashSet::<T, S, A>::(insert|extend)$") and "authenticated_sessions" in [proj_field_name(e) for r in g.origins(c.args[0]) for e in r.get("proj", []) + r.get("trail", []) if e.startswith("f:")]:
+            if c.matches(r"HashSet::<T, S, A>::(insert|extend)$") and fields(db).nsv_authenticated in [proj_field_name(e) for r in g.origins(c.args[0]) for e in r.get("proj", []) + r.get("trail", []) if e.startswith("f:")]:
                 writers.append(g.id)
     run.check(len(writers) == 1 and writers[0].endswith("::commit_authenticated"), "authenticated-set|single-writer", "authenticated_sessions is inserted into only by commit_authenticated", "authenticated_sessions written by %s" % writers)
     cs = db.calls_of("NodeServerState::commit_authenticated")
